@@ -88,6 +88,21 @@ def replay_ser(state):
         obs["j1_tagged"] = codec.py_to_tagged(j1)
     except Exception as exc:  # noqa
         obs["j1_err"] = type(exc).__name__ + ": " + str(exc)[:160]
+    # ---- the serializer's image reached WITHOUT the parser: the model's element record is
+    # built through the DSL constructors, serialized, and that document is round-tripped
+    if "elem" in state:
+        try:
+            dsl = drive.build_element(_fix(state["elem"]), share={})
+            jm = serialize_json(dsl)
+            obs["jm_tagged"] = codec.py_to_tagged(jm)
+            obs["jm"] = jm
+            jm1, _ = _reparse(copy.deepcopy(jm))
+            obs["jm1"] = jm1
+            obs["jm1_tagged"] = codec.py_to_tagged(jm1)
+        except ValueError:
+            pass
+        except Exception as exc:  # noqa
+            obs["jm_err"] = type(exc).__name__ + ": " + str(exc)[:160]
     # ---- Python
     classes = [c for c in drive.walk_elements(el) if isinstance(c, ObjectMeta)]
     if classes:
@@ -166,6 +181,13 @@ def run(pid, tier, replay_file=None):
             nontrivial.add(json.dumps(ob["j0"], sort_keys=True))
             add_event(si, "C06", '[id |-> @ID@, p |-> "C06", j0 |-> %s, j1 |-> %s]'
                       % (tlajson_to_tla(ob["j0_tagged"]), tlajson_to_tla(ob["j1_tagged"])))
+            if "jm_err" in ob:
+                rep.violation(("C06", "dsl-roundtrip-raises", sig),
+                              f"document serialized from the DSL form of {sjson(st)} cannot be round-tripped: {ob['jm_err']} ({json.dumps(ob.get('jm'))[:200]})",
+                              dict(state=st, observed=_slim(ob)))
+            elif "jm1_tagged" in ob:
+                add_event(si, "C06dsl", '[id |-> @ID@, p |-> "C06", j0 |-> %s, j1 |-> %s]'
+                          % (tlajson_to_tla(ob["jm_tagged"]), tlajson_to_tla(ob["jm1_tagged"])))
             if "py_err" in ob:
                 rep.violation(("C06", "generated-python-fails", sig),
                               f"generated Python for {sjson(st)} does not execute: {ob['py_err']}",
@@ -214,9 +236,10 @@ def run(pid, tier, replay_file=None):
                        f"{json.dumps(ob['j0'])[:240]}: {clause}")
                 key = ("C03", clause, _kwsig_json(ob["j0"]))
             elif pid == "C06":
-                msg = (f"round trip is not the identity: {json.dumps(ob['j0'])[:200]} -> "
-                       f"{json.dumps(ob['j1'])[:200]}")
-                key = ("C06", "json-roundtrip", _kwsig_json(ob["j0"]))
+                a, b = (ob.get("jm"), ob.get("jm1")) if tag == "C06dsl" else (ob["j0"], ob["j1"])
+                msg = (f"round trip is not the identity ({tag}): {json.dumps(a)[:200]} -> "
+                       f"{json.dumps(b)[:200]}")
+                key = ("C06", "json-roundtrip", _kwsig_json(a))
             else:
                 msg = (f"defaults/descriptions of {sjson(st)} not preserved in the {tag}: "
                        + (json.dumps(ob.get('j0'))[:200] if tag == "json" else json.dumps(ob.get('elem' if tag == 'elem' else 'py_root'))[:300]))
@@ -273,7 +296,7 @@ def _fix(rec):
 
 
 def _slim(ob):
-    return {k: (v if k in ("parse", "kinds", "j0", "j1", "j0_err", "j1_err", "py_err", "elem_err") else "...")
+    return {k: (v if k in ("parse", "kinds", "j0", "j1", "jm", "jm1", "jm_err", "j0_err", "j1_err", "py_err", "elem_err") else "...")
             for k, v in ob.items()}
 
 
